@@ -510,9 +510,9 @@ func runC11(tier string, seed uint64) int {
 	agg.add("input_tree_files_compared", int64(len(inputsBefore)))
 	agg.cov["distinct_completion_orders"] = int64(len(agg.orders))
 	// termination on logical steps (in-process): fertiliser prediction at every latitude, day-length search loops bounded
-	termCases := 60
+	termCases := 240
 	if tier == "thorough" {
-		termCases = 1200
+		termCases = 6000
 	}
 	results, inconclusive := runCasesSharded("C11", tier, seed, termCases)
 	results = append(results, agg.toCase("C11", seed))
